@@ -1306,6 +1306,9 @@ bool SPxLPBase<R>::readLPF(
 
          case BINARIES:
          case INTEGERS:
+            if(!LPFisColName(pos))
+               goto syntax_error;
+
             if((colidx = LPFreadColName<R>(pos, cnames, cset, nullptr, spxout)) < 0)
             {
                SPX_MSG_WARNING((*this->spxout),
